@@ -87,11 +87,15 @@ def corpus_variants(prop: Optional[str]) -> List[dict]:
             if not pf.exists() or not mf.exists():
                 continue
             try:
-                owner = json.loads(mf.read_text()).get("property")
+                meta = json.loads(mf.read_text())
+                owner = meta.get("property")
             except Exception:
                 continue
             if owner and (prop is None or owner == prop):
-                out.append({"id": f"seeded/{d.name}", "kind": "fault", "props": [owner], "patch": pf.read_text()})
+                # a seed recorded as out of static reach (meta.out_of_reach = reason) is still run, but silence on it
+                # is the declared outcome, not a miss
+                kind = "declined" if meta.get("out_of_reach") else "fault"
+                out.append({"id": f"seeded/{d.name}", "kind": kind, "props": [owner], "patch": pf.read_text()})
     bd = VERIF / "benign"
     if bd.is_dir():
         for d in sorted(bd.iterdir()):
